@@ -1289,6 +1289,91 @@ func minInt(a, b int) int {
 	return b
 }
 
+// groupProbe: grouping by several fields keeps value tuples apart whose printed forms run into each other
+// ("ab"+"c" and "a"+"bc", 1+"2x" and 12+"x", 1+11 and 11+1); every group's count is the multiplicity of its tuple
+func groupProbe(ctx context.Context, out *vc.Out, r *vc.Rng) {
+	nd, err := vnode.NewMem(ctx)
+	must(err)
+	defer nd.Close()
+	_, err = nd.DB.AddSchema(ctx, `type G { a: String
+ b: String
+ n: Int
+ m: Int }`)
+	must(err)
+	col, err := nd.DB.GetCollectionByName(ctx, "G")
+	must(err)
+	type row struct {
+		a, b string
+		n, m int
+	}
+	as := []string{"a", "ab", "", "1", "12", "a_", "_", "1_2"}
+	bs := []string{"bc", "c", "abc", "2x", "x", "_b", "b_", ""}
+	var rows []row
+	for i := 0; i < 40; i++ {
+		rows = append(rows, row{as[r.Intn(len(as))], bs[r.Intn(len(bs))], []int{1, 11, 12, 2, 0, 111}[r.Intn(6)], []int{1, 11, 2, 21, 0, 10}[r.Intn(6)]})
+	}
+	rows = append(rows, row{"ab", "c", 1, 11}, row{"a", "bc", 11, 1}, row{"", "abc", 1, 2}, row{"1", "2x", 12, 0}, row{"12", "x", 1, 20})
+	for i, w := range rows {
+		d, err := client.NewDocFromJSON([]byte(fmt.Sprintf(`{"a": %q, "b": %q, "n": %d, "m": %d}`, w.a, w.b, w.n, w.m)), col.Definition())
+		must(err)
+		_ = i
+		if err := col.Create(ctx, d); err != nil {
+			continue // the same content twice: one document
+		}
+	}
+	// the documents as stored (identical contents collapse into one document)
+	res := nd.GQL(ctx, `query { G { a b n m } }`)
+	var all struct{ G []map[string]any }
+	must(json.Unmarshal([]byte(res), &all))
+	for _, fields := range [][]string{{"a", "b"}, {"b", "a"}, {"n", "a"}, {"a", "n"}, {"n", "m"}, {"m", "n", "b"}} {
+		want := map[string]int{}
+		for _, d := range all.G {
+			var k []string
+			for _, f := range fields {
+				b, _ := json.Marshal(d[f])
+				k = append(k, string(b))
+			}
+			want[strings.Join(k, "|")]++
+		}
+		q := fmt.Sprintf(`query { G(groupBy: [%s]) { %s _count(_group: {}) } }`, strings.Join(fields, ", "), strings.Join(fields, " "))
+		res := nd.GQL(ctx, q)
+		var got struct{ G []map[string]any }
+		line := out.Lines
+		out.Emit("groupprobe "+strings.Join(fields, ","), "ok")
+		out.Count("op:groupprobe")
+		if err := json.Unmarshal([]byte(res), &got); err != nil {
+			out.Oracle(line, fmt.Sprintf("[group-by-several-fields] %s: %s", q, clipStr(res, 200)))
+			continue
+		}
+		seen := map[string]bool{}
+		for _, g := range got.G {
+			var k []string
+			for _, f := range fields {
+				b, _ := json.Marshal(g[f])
+				k = append(k, string(b))
+			}
+			key := strings.Join(k, "|")
+			if seen[key] {
+				out.Oracle(line, fmt.Sprintf("[group-by-several-fields] %s: the group %s appears twice", q, key))
+			}
+			seen[key] = true
+			if c := fmt.Sprint(g["_count"]); c != fmt.Sprint(want[key]) {
+				out.Oracle(line, fmt.Sprintf("[group-by-several-fields] %s: the group %s counts %s documents, %d documents have these values", q, key, c, want[key]))
+			}
+		}
+		if len(seen) != len(want) {
+			out.Oracle(line, fmt.Sprintf("[group-by-several-fields] %s: %d groups, %d distinct value tuples", q, len(seen), len(want)))
+		}
+	}
+}
+
+func clipStr(s string, n int) string {
+	if len(s) > n {
+		return s[:n]
+	}
+	return s
+}
+
 func main() {
 	f := vc.ParseFlags()
 	out := vc.NewOut(f.OutDir)
@@ -1312,6 +1397,7 @@ func main() {
 		runCase(ctx, out, i, s, f.Tier, withTwin)
 	}
 	if !withTwin {
+		groupProbe(ctx, out, r)
 		m := 1500
 		if f.Tier == "thorough" {
 			m = 100000
